@@ -91,7 +91,12 @@ def _run_group(cfg):
     def path():
         with T.SymMode():
             peak_ch = torch.tensor(ch, dtype=torch.int32)
-            edge_inds, edge_peak_inds = pg.get_connection_candidates(peak_ch, skel, n_nodes)
+            try:
+                edge_inds, edge_peak_inds = pg.get_connection_candidates(peak_ch, skel, n_nodes)
+            except Exception as e:  # noqa  (grouping must finish for ANY peak set, incl. frames where no edge has both endpoints)
+                if isinstance(e, xf.EngineGap):
+                    raise
+                return ("EXC", e, [])
             ncand = int(edge_inds.shape[0])
             scores = T.tensor_of([XF(z3.Real(f"s{i}"), z3.Bool(f"s{i}#nan") if cfg["nan_scores"] else False) for i in range(ncand)], (ncand,), torch.float32)
             peaks = T.tensor_of([XF(z3.Real(f"pk{i}_{d}")) for i in range(n_peaks) for d in "xy"], (n_peaks, 2), torch.float32)
